@@ -2,6 +2,7 @@ package proto
 
 import (
 	"bytes"
+	"slices"
 	"context"
 	"fmt"
 
@@ -75,8 +76,10 @@ func classify[O any](res map[ID]*schednet.Result[O], info *schednet.Info, good f
 	return e
 }
 
-// shardGood: a returned shard is self-consistent: its private share matches the public share its own verification
-// vector assigns to it (NewBaseShard re-checks exactly that) and the public key it reports is the committed one.
+// shardGood: a returned shard is self-consistent: for EVERY component of its private share, share_i*G equals the
+// public share that its own verification vector assigns to that MSP row (recomputed here row by row as sum_j M[i][j]*V_j,
+// deliberately not through the library's LiftedShare comparison), the library's own constructor accepts it, and the
+// public key it reports is the committed one (entry 0 of the vector).
 func shardGood(sh *K256Shard) (string, string) {
 	if sh == nil {
 		return "nil shard returned without error", ""
@@ -84,7 +87,52 @@ func shardGood(sh *K256Shard) (string, string) {
 	if _, err := mpc.NewBaseShard(sh.Share(), sh.VerificationVector(), sh.MSP()); err != nil {
 		return "returned shard is inconsistent with its own public data: " + err.Error(), ""
 	}
+	if bad := shardRowsBad(sh); bad != "" {
+		return bad, ""
+	}
 	return "", fmt.Sprintf("pk=%x", sh.PublicKeyValue().ToCompressed())
+}
+
+func shardRowsBad(sh *K256Shard) string {
+	G := k256.NewCurve().Generator()
+	vv := sh.VerificationVector().Value()
+	nv, _ := vv.Dimensions()
+	V := make([]*k256.Point, nv)
+	for j := 0; j < nv; j++ {
+		e, err := vv.Get(j, 0)
+		if err != nil {
+			return "verification vector entry unreadable: " + err.Error()
+		}
+		V[j] = e
+	}
+	if len(V) == 0 || !V[0].Equal(sh.PublicKeyValue()) {
+		return "the reported public key is not entry 0 of the shard's own verification vector"
+	}
+	rows, ok := sh.MSP().HoldersToRows().Get(sh.Share().ID())
+	if !ok {
+		return "the shard's holder owns no row of the shard's own MSP"
+	}
+	sorted := rows.List()
+	slices.Sort(sorted)
+	vals := sh.Share().Value()
+	if len(vals) != len(sorted) {
+		return fmt.Sprintf("private share has %d components, its MSP gives the holder %d rows", len(vals), len(sorted))
+	}
+	M := sh.MSP().Matrix()
+	for i, r := range sorted {
+		acc := k256.NewCurve().OpIdentity()
+		for j := 0; j < nv; j++ {
+			c, err := M.Get(r, j)
+			if err != nil {
+				return "MSP entry unreadable: " + err.Error()
+			}
+			acc = acc.Op(V[j].ScalarOp(c))
+		}
+		if !G.ScalarOp(vals[i]).Equal(acc) {
+			return fmt.Sprintf("private share component %d (MSP row %d) does not match the public share its own verification vector assigns to it", i, r)
+		}
+	}
+	return ""
 }
 
 // SessionCase: session setup over runners.
@@ -158,6 +206,17 @@ func CanettiCase(name string, ac accessstructures.Monotone, ids []ID) *Case {
 // RedistributeCase: previous holders prev (qualified in the dealt structure oldAC) redistribute to nextAC.
 // anchor==0 means no trusted anchor. The reported public key must still be the old one.
 func RedistributeCase(name string, oldAC accessstructures.Monotone, prev []ID, nextAC accessstructures.Monotone, anchor ID) *Case {
+	return redistributeCase(name, oldAC, prev, nextAC, anchor, 0)
+}
+
+// RedistributeForeignShardCase is RedistributeCase in which previous holder `deviator` takes part with a shard of an
+// UNRELATED dealing of the same structure (another key): a coordinated deviation (all its messages are consistent with
+// each other, none with the real key) that no single-message alteration can express.
+func RedistributeForeignShardCase(name string, oldAC accessstructures.Monotone, prev []ID, nextAC accessstructures.Monotone, anchor ID, deviator ID) *Case {
+	return redistributeCase(name, oldAC, prev, nextAC, anchor, deviator)
+}
+
+func redistributeCase(name string, oldAC accessstructures.Monotone, prev []ID, nextAC accessstructures.Monotone, anchor ID, foreign ID) *Case {
 	all := map[ID]bool{}
 	for _, id := range prev {
 		all[id] = true
@@ -187,6 +246,9 @@ func RedistributeCase(name string, oldAC accessstructures.Monotone, prev []ID, n
 			var prevShard *K256Shard
 			if prevSet.Contains(id) {
 				prevShard = old[id]
+				if id == foreign {
+					prevShard = DealK256(oldAC, KeySeed(seed)+7777, "redistribute-foreign")[id]
+				}
 			}
 			r, err := redistribute.NewRunner(ctxs[id], prevSet, prevShard, nextAC, det.New(seed, fmt.Sprintf("redistribute/%d", id)), opts...)
 			if err != nil {
